@@ -93,7 +93,8 @@ def do_check(ctx, mod, no_build=False):
             obligations.append({'name': 'leanchecker %s' % mod.MODULE, 'kind': 'audit', 'ok': lc.returncode == 0})
             if lc.returncode != 0:
                 ctx.broken.append('leanchecker rejected %s: %s' % (mod.MODULE, (lc.stdout + lc.stderr)[-200:]))
-        hits = core.forbidden_tokens()
+        roots = [mod.MODULE] + ['Drv.' + t[4:].upper() for t in mod.TARGETS if t.startswith('drv_')]
+        hits = core.forbidden_tokens(roots)
         obligations.append({'name': 'forbidden-token grep (sorry/admit/axiom/native_decide/...)', 'kind': 'audit', 'ok': not hits})
         if hits:
             ctx.broken += ['forbidden token: ' + h for h in hits[:5]]
